@@ -170,6 +170,13 @@ class Grid(object):
                     pvalue = int(line[1].strip())
                 elif pname.startswith("parentgrid_n"):
                     pvalue = int(line[1].strip())
+                elif pname.startswith("nodata"):
+                    # Integers are kept as such (float64 cannot
+                    # hold every 64 bits integer)
+                    try:
+                        pvalue = int(line[1].strip())
+                    except ValueError:
+                        pvalue = float(line[1].strip())
                 else:
                     pvalue = float(line[1].strip())
 
@@ -567,6 +574,9 @@ class Grid(object):
             else:
                 byteorder = "I"
             fh.write("{0:<14} {1}\n".format("BYTEORDER", byteorder))
+
+            # No data value
+            fh.write("{0:<14} {1}\n".format("NODATA_VALUE", self.nodata))
 
             # Name
             fh.write("{0:<14} {1}\n".format("NAME", self.name))
